@@ -512,13 +512,14 @@ impl RawLexer {
             None => return false,
             Some(c) => c,
         };
+        if !char_3.is_ascii() {
+            // Not a caret notation: TeX only reduces `^^c` if c < 128 (TeX.2021.352 and 355).
+            return false;
+        }
         if !char_1_consumed {
             self.advance();
         }
         self.advance();
-        if !char_3.is_ascii() {
-            return true;
-        }
         let u: u8 = match (char_3 as u32).try_into() {
             Ok(u) => u,
             Err(_) => return true, // unreachable because char_3 is ASCII
